@@ -30,6 +30,8 @@ def _mk(case):
         for i in range(n):
             for j in range(i, n):
                 C[i, j] = C[j, i] = (5.0 + i) if i == j else 0.1 * (1 + i + 2 * j)
+        # cm/s-level precision quoted in (km/s)^2: every entry is tiny, correlations included
+        C = C * case.get("covscale", 1.0)
         for (i, j) in case.get("covbad", []):
             C[i, j] = C[j, i] = NAN if (i + j) % 2 == 0 else np.inf
         err = C * unit**2
@@ -103,7 +105,7 @@ def _check_against(d, exp_t, exp_v, exp_e, unit, cov, part, case, what, want_sor
             return False
         if len(idx):
             iv = np.array(d.ivar.to_value(1 / unit**2))
-            if not np.allclose(iv, np.linalg.inv(wantC), rtol=1e-10, atol=1e-14):
+            if not np.allclose(iv, np.linalg.inv(wantC), rtol=1e-9, atol=0):
                 part.violation(case, f"{what}: ivar != inverse covariance", expected=np.linalg.inv(wantC), observed=iv)
                 return False
     return True
@@ -153,6 +155,8 @@ def _apply_index(expr, seq_len):
 def run_case(case, part):
     from thejoker import RVData
 
+    if case.get("kind") == "guess":
+        return check_guess(case, part)
     kw, t, v, e, fin, unit = _mk(case)
     cov = bool(case.get("cov"))
     if not case["clean"] and not all(fin):
@@ -224,6 +228,41 @@ def run_case(case, part):
         walk(d, st.tolist(), sv.tolist(), (se if cov else se.tolist()), 0, [], True)
 
 
+def check_guess(case, part):
+    """RVData.guess_from_table: the object holds the table's observations, read with the caller's time format / scale"""
+    import astropy.units as u
+    from astropy.table import Table
+    from astropy.time import Time
+    from thejoker import RVData
+
+    n = 4
+    mjd = np.array([T0 + 3.5, T0 + 1.25, T0 + 40.0, T0 + 2.0])
+    tvals = mjd + 2400000.5 if case["tkind"] in ("jd", "bjd") else mjd
+    v = np.array([11.0, 14.0, 17.0, 20.0])
+    e = np.array([0.5, 0.75, 1.0, 1.25])
+    tbl = Table()
+    tbl[case["tname"]] = tvals
+    tbl[case["vname"]] = v * u.km / u.s
+    tbl[case["ename"].replace("{rv}", case["vname"].lower())] = e * u.km / u.s
+    kw = dict(case["time_kwargs"])
+    try:
+        d = RVData.guess_from_table(tbl, time_kwargs=dict(kw) if kw else None)
+    except Exception as ex:
+        part.violation(case, f"guess_from_table raised {type(ex).__name__}: {str(ex)[:200]}")
+        return
+    # what the caller asked for: explicit format/scale win; b-columns default to TCB; otherwise astropy's default scale (UTC)
+    fmt = kw.get("format", "jd" if case["tkind"] in ("jd", "bjd") else "mjd")
+    scale = kw.get("scale", "tcb" if case["tkind"] in ("bjd", "bmjd") else "utc")
+    want_t = Time(tvals, format=fmt, scale=scale).tcb.mjd
+    t, vv, ee = _state(d)
+    got = sorted(zip(np.round(t, 8).tolist(), vv.tolist(), ee.tolist()))
+    want = sorted(zip(np.round(want_t, 8).tolist(), v.tolist(), e.tolist()))
+    part.record(case, outcome=(fmt, scale), nontrivial=bool(kw))
+    if got != want:
+        part.violation(case, "guess_from_table: the RVData does not hold the table's observations at the epochs the caller's time format / scale define",
+                       expected=want, observed=got)
+
+
 def shard(cases):
     part = core.Part()
     for c in cases:
@@ -268,6 +307,16 @@ def build_cases(quick):
                         anybad = bool(covbad) or any(vbad)
                         cases.append(dict(t=list(perm), vbad=vbad, ebad=[0, 0, 0], cov=True, covbad=[list(c) for c in covbad],
                                           clean=True, tfmt=tfmt, unit="km/s", t_ref=tref, depth=0 if anybad else 2))
+                        if not anybad:
+                            for sc in (1e-10, 1e6):
+                                cases.append(dict(t=list(perm), vbad=vbad, ebad=[0, 0, 0], cov=True, covbad=[], covscale=sc,
+                                                  clean=True, tfmt=tfmt, unit="km/s", t_ref=tref, depth=1))
+    # guess_from_table: column-name variants x caller-supplied time keywords
+    for tname, tkind in (("jd", "jd"), ("MJD", "mjd"), ("bjd", "bjd"), ("BMJD", "bmjd"), ("t", "mjd"), ("time", "jd")):
+        for vname in ("rv", "vhelio", "VRAD"):
+            for ename in ("{rv}_err", "e_{rv}", "{rv}err"):
+                for tk in ({}, {"scale": "tdb"}, {"scale": "utc"}, {"scale": "tcb"}, {"format": "jd" if tkind in ("jd", "bjd") else "mjd", "scale": "tt"}):
+                    cases.append(dict(kind="guess", tname=tname, tkind=tkind, vname=vname, ename=ename, time_kwargs=tk))
     return cases
 
 
@@ -277,7 +326,7 @@ def main():
         "every time tuple of length<=3 (quick) / 4 over {t1<t2<t3, NaN} (all orders and duplicates) x every non-finite "
         "placement in velocities and errors x clean x float-BMJD/Time input x unit x t_ref {default, explicit, False}; "
         "covariance input: every permutation of 3 epochs x non-finite entries on/off the diagonal; chains (depth<=2 quick / 3) "
-        "of copy and every slice / index array / mask. Non-trivial: input unsorted, has tied times or loses an observation.",
+        "of copy and every slice / index array / mask; covariance scales 1e-10 and 1e6; guess_from_table over column-name variants x time keywords. Non-trivial: input unsorted, has tied times or loses an observation.",
     )
     cases = build_cases(chk.quick)
     chk.bounds = {"construction_cases": len(cases), "chain_depth": 2 if chk.quick else 3}
